@@ -14,4 +14,39 @@ CHECKS = {
     },
 }
 
+M1NOTE = TRUST + " Bounds: generated problems have <= ~12 ground fluents, <= ~16 ground actions, <= 3 objects per type; depth 4 (quick) / 6 (thorough); the unspecified zones of DESIGN.md 7.1 are not compared (counted in evidence)."
+
+CHECKS.update({
+    "C01": {
+        "text": "TLC explores the SPECIFICATION's transition system (UPSeqSem!Step: the documented successor semantics as one TLA+ definition) of hundreds of generated problems to a depth bound and checks in every state it reaches that the observation graph recorded from the real UPSequentialSimulator (apply on every ground action of every visited state, is_goal, initial-state rejection) agrees with Step. A simulator that loses, invents or alters a transition is reported at the first state where it shows.",
+        "note": M1NOTE,
+        "technique": "TLA+ reference semantics (UPSeqSem) explored by TLC; recorded simulator observation graphs validated against it in every reachable state",
+    },
+    "C02": {
+        "text": "Same corpus and exploration as C01; on ONE simulator instance every query kind is issued for every ground action of every visited state in a seeded random interleaving, each twice, and the state is re-read. TLC judges: is_applicable = (apply # None) = membership in get_applicable_actions; is_goal = (get_unsatisfied_goals empty); repeated answers equal; state unchanged; and outside the unspecified zones all equal UPSeqSem's verdicts.",
+        "note": M1NOTE,
+        "technique": "trace validation of query interleavings against UPSeqSem (queries are stuttering steps) with TLC exploring the specification's reachable states",
+    },
+    "C03": {
+        "text": "Thousands of (problem, plan) pairs -- the empty plan, all short plans, simulator walks with an arbitrary last step, random plans; problems with none or one quality metric of every kind -- validated by the real SequentialPlanValidator; TLC judges each recorded status / metric value / exception against UPSeqSem!SeqVerdict (fold of Step, then Goal) and MetricValue.",
+        "note": M1NOTE + " Which failure reason is reported is not judged.",
+        "technique": "recorded validator verdicts judged by the TLA+ plan semantics (SeqVerdict, MetricValue) evaluated by TLC",
+    },
+    "C04": {
+        "text": "Instantaneous generated problems x plans scheduled at pairwise distinct rational start times (listed in shuffled order): TLC checks on every case that the two specifications agree (UPTimeSem!TimeVerdict = UPSeqSem!SeqVerdict of the start-time ordering, a spec-level theorem checked on the corpus), that each real validator returns its specification's verdict, and that the two recorded verdicts are equal.",
+        "note": M1NOTE,
+        "technique": "two TLA+ semantics (temporal, sequential) checked equivalent by TLC on the corpus and both validators' recorded verdicts judged against them",
+    },
+    "C05": {
+        "text": "Generated temporal problems (open/closed constant or fluent-dependent duration intervals, conditions over open/closed/delayed intervals, start/end/intermediate effects, timed effects and goals, invariants, bounded types) x seeded time-triggered plans on a coarse rational grid forcing coinciding happenings; the real TimeTriggeredPlanValidator's status is judged by TLC against UPTimeSem!TimeVerdict (dense-time reading of conditions, all effects of an instant applied together).",
+        "note": M1NOTE + " Dense-time reading as stated in spec/UPTimeSem.tla; plans of <= 3 steps.",
+        "technique": "recorded validator verdicts judged by the TLA+ temporal semantics (UPTimeSem) evaluated by TLC",
+    },
+    "C14": {
+        "text": "T1: DagWalker.tla models memo/stack handling of the shared walkers as written; TLC checks HistoryIndependent and CleanBetweenCalls for all call histories within bounds (and that the unrepaired model has a counterexample, which is replayed on the real walkers). T2/T3: thousands of TLC-enumerated call histories over substituter, simplifier, type checker, free-vars/names extractors and quantifier remover, with failures injected mid-walk, are replayed on one shared Environment and call by call on fresh Environments; the trace spec judges result equality and walker cleanliness after every call.",
+        "note": TRUST + " Histories of <= 3-4 calls exhaustive over a 28-node expression menu, longer ones sampled.",
+        "technique": "TLA+ model of the walker mechanism checked by TLC + trace validation of TLC-enumerated call histories replayed on shared vs fresh environments",
+    },
+})
+
 NOT_APPLICABLE = {}
